@@ -364,3 +364,5 @@ H("C13", "html/layout", "VxH_C13_auto_percent", mode="real", nonfinite_confirm=T
 H("C14", "html/document", "VxH_C14_zero_size_boxes", mode="real", nonfinite_confirm=True, reach=["laid-out", "drawn"], bounds="one block with a background, overflow visible / hidden, border-radius 0 / 5px, no border / top border / four borders of 6 styles; content width and height each in {0, 3, 10} px", quick={"maxsteps": 200000000, "shards": 8})
 H("C16", "html/document", "VxH_C16_nested_order", reach=["laid-out", "drawn"], bounds="html > body > section > (article, nav, aside): section static / relative (z-index auto), each child static / absolute / absolute with z-index 0; unique colours", quick={"maxsteps": 200000000, "shards": 6})
 H("C17", "svg", "VxH_C17_svg_apply_transform", mode="real", reach=["applied", "invertible", "singular"], bounds="SVG transform lists matrix(a b c d e f), translate scale, scale translate with every number a symbolic real in [-10,10]")
+for _p in ("C01", "C10"):
+    H(_p, "html/layout", "VxH_C01_floats", mode="real", reach=["laid-out"], bounds="two left floats in a 200px container: the first 150px wide with symbolic height in [0,20] and margin-bottom in [-20,5] (margin box height >= 0), the second with symbolic width in [10,190]; then a block", quick={"maxsteps": 30000000, "shards": 4})
